@@ -21,8 +21,8 @@
 (*  - _yr_re_fiber_sync: depth-first over the fiber and its clones with    *)
 (*    ONE set of already-followed splits per call (the guard against       *)
 (*    endless loops) - a fiber reaching a split of that set is killed;     *)
-(*    repeat counters on a per-fiber stack; the nested sync (with a fresh  *)
-(*    set) of the fiber that leaves a REPEAT_ANY;                          *)
+(*    repeat counters on a per-fiber stack; the nested sync (sharing the   *)
+(*    set: D45) of the fiber that leaves a REPEAT_ANY;                     *)
 (*  - the main loop: consuming instructions, zero-width assertions that    *)
 (*    re-sync the fiber and go on in the same round, MATCH; a new fiber at *)
 (*    the start of the code for every input position incl. the end (D37).  *)
@@ -74,7 +74,8 @@ Emit(nd, id) ==
                     IN Alt(k + 1, code, r.n)
              first == Emit(nd.xs[1], id)
          IN IF Len(nd.xs) = 1 THEN first ELSE Alt(2, first.c, first.n)
-    [] nd.t = "rep" /\ nd.x.t = "any" ->          \* RE_NODE_RANGE_ANY for . with any quantifier
+    [] nd.t = "rep" /\ nd.x.t = "any" /\ ~IsStar(nd) /\ ~IsPlus(nd) /\ ~("grp" \in DOMAIN nd.x /\ nd.x.grp) ->
+         \* RE_NODE_RANGE_ANY: .? and .{n,m} (re_grammar.y: the child is RE_NODE_ANY itself, not a group; .* and .+ are STAR / PLUS)
          [c |-> <<Ins("rany", nd.lo, IF nd.hi < 0 THEN INF ELSE nd.hi, 0, Z, << >>)>>, n |-> id]
     [] IsStar(nd) ->
          \* L1: split L1+1, L2 ; e ; jmp L1 ; L2:     greedy: SPLIT_A (the original enters e)
@@ -119,9 +120,10 @@ GKey(GuardPerSync, f, id) == IF GuardPerSync THEN <<id>> ELSE <<id, f.stk>>
 
 \* ---------------------------------------------------------------- _yr_re_fiber_sync
 \* the fibers L[pos .. Len(L) - tail] are run until each of them stands on an instruction of the main loop
+\* returns [L |-> fibers, g |-> followed splits]: the set is shared with the nested calls (D45) and handed back
 RECURSIVE SyncAt(_, _, _, _, _, _)
 SyncAt(P, GPS, L, pos, tail, g) ==
-  IF pos > Len(L) - tail THEN L
+  IF pos > Len(L) - tail THEN [L |-> L, g |-> g]
   ELSE
   LET f == L[pos]
       ins == P[f.ip]
@@ -162,13 +164,13 @@ SyncAt(P, GPS, L, pos, tail, g) ==
                        L2 == IF ins.z = 0 THEN InsertAfter(Replace(L, pos, spin), pos, go)
                                           ELSE InsertAfter(Replace(L, pos, go), pos, spin)
                        gopos == IF ins.z = 0 THEN pos + 1 ELSE pos
-                       \* the leaving fiber is synced by a nested call with its own, empty, set of followed splits
-                       L3 == SyncAt(P, GPS, L2, gopos, Len(L2) - gopos, {})
-                   IN SyncAt(P, GPS, L3, Len(L3) - after + 1, tail, g)
+                       \* the leaving fiber is synced by a nested call that shares the set of followed splits
+                       R3 == SyncAt(P, GPS, L2, gopos, Len(L2) - gopos, g)
+                   IN SyncAt(P, GPS, R3.L, Len(R3.L) - after + 1, tail, R3.g)
               ELSE SyncAt(P, GPS, Replace(L, pos, [f EXCEPT !.ip = f.ip + 1, !.rc = -1]), pos, tail, g)
     [] OTHER -> SyncAt(P, GPS, L, pos + 1, tail, g)
 
-Sync1(P, GPS, L, pos) == SyncAt(P, GPS, L, pos, Len(L) - pos, {})
+Sync1(P, GPS, L, pos) == SyncAt(P, GPS, L, pos, Len(L) - pos, {}).L
 
 \* ---------------------------------------------------------------- yr_re_exec, one input position
 ByteOK(ins, x, fl) ==
